@@ -95,6 +95,11 @@ CHECKS = {
     category="model_checking", design_ref="4 C18",
     text="TLC explores the controller for the three oracles x iteration counts {1,2,51,52,60} x every loss-up/down pattern, checking that every field an action reads exists for that oracle (NoCrash), that restarts restore potentials and messages, and exhibits the unbounded restart chain as a design hazard. LocalInference.estimate is run for convex/approx/pairwise on overlapping, cyclic, nested three-level (large totals) and disjoint measurement sets with 1,5,60,200 iterations and totals given/estimated: no exception; every measured clique's table finite, non-negative, summing to the total; fit no worse than uniform; convex-oracle tables agreeing within the enforced feasibility tolerance (edge-averaged L1 < 1, recomputed with numpy); on disjoint families (half of them after an earlier call with other answers on the same object) the loss must equal FactoredInference's within 1e-3 of the initial gap. Each run's H4 stream must be a behaviour of the controller spec.",
     note="pairwise-convex needs cvxopt (absent). Known finding F17 (unchecked final step, iters=1) listed."),
+ "C16": dict(
+    technique="TLA+ specs of region-graph construction (spec/approx/RegionGraph.tla), of the undamped GBP fixed point on two-level RIP structures (GBP.tla) and of flooding BP on tree factor graphs (FactorGraphBP.tla) model-checked by TLC; structures, first exact sweep D* and exact integer marginals replayed on RegionGraph / FactorGraph",
+    category="model_checking", design_ref="4 C16",
+    text="TLC checks, for every antichain of cliques over 3 attributes and over 4 attributes with <= 3 (thorough 4) cliques x every legal choice of pruned parents, that the Moebius counting numbers count every attribute once, that N and D message sets are disjoint and refer to existing messages and that denominators are sent earlier in the size-ordered schedule; the real RegionGraph must reproduce regions, parent classes, counting numbers, N/D/B and a valid order. GBP.tla shows the undamped update exact on two-level running-intersection structures; FactorGraphBP.tla computes for each of 60 (thorough 400) tree factor graphs the first sweep D* from which beliefs are exact. RegionGraph(convex=False, 200 sweeps) on all RIP clique sets (plus 3-level 5-attribute ones) and FactorGraph at D*, D*+5 and 25 sweeps (per sweep through the callback) are compared with brute-force marginals at 1e-8; arbitrary clique sets x 1,2,25 sweeps x both oracle families x repeated (warm) calls x reassigned totals must give finite, non-negative tables summing to the total.",
+    note="pairwise-convex needs cvxopt (absent). Multi-level RIP structures are compared numerically only. Known finding F11 listed."),
 }
 
 NOT_YET = "check not built yet (work in progress, see DESIGN.md section 8 build order)"
